@@ -141,7 +141,7 @@ func resolverPart(rep *core.Report, col *collector) {
 	rep.Extra["resolver_port0"] = nPort0
 	rep.Extra["resolver_ipv6_literals"] = nV6
 	if nBlocked == 0 || nFree == 0 {
-		core.HarnessError("resolver part vacuous")
+		rep.Vacuous("resolver part vacuous")
 	}
 	_ = net.IPv4len
 }
